@@ -153,7 +153,8 @@ Proof.
   - assert (F : forall z, (if zopt_ok ge le gt z then Ok (MInt z) else reject) = Ok m -> scalar_mval m).
     { intros z Hz. destruct (zopt_ok ge le gt z); [|discriminate Hz]. injection Hz as <-. exact I. }
     destruct v as [|b|z|dm de|s|l|members]; try discriminate H; try (destruct strict; try discriminate H); try (eapply F; exact H).
-    destruct (parse_int s); [eapply F; exact H|discriminate H].
+    + destruct (dec_integral dm de); [eapply F; exact H|discriminate H].
+    + destruct (parse_int s); [eapply F; exact H|discriminate H].
   - assert (F : forall a x, match gt with
                             | Some b => if num_ltb (num_of_Z b) (mkNum a x) then Ok (MFloat a x) else reject
                             | None => Ok (MFloat a x)
